@@ -637,11 +637,13 @@ func (m *RpcServer) ControlEnvironment(cxt context.Context, req *pb.ControlEnvir
 			WithField("level", infologger.IL_Ops).
 			WithError(err).
 			Errorf("transition '%s' failed, transitioning into ERROR.", req.GetType().String())
+		transitionErr := err // the request has failed, no matter how the environment gets to ERROR
 		err = env.TryTransition(environment.NewGoErrorTransition(m.state.taskman))
 		if err != nil {
 			log.WithField("partition", env.Id()).Warnf("could not complete requested GO_ERROR transition, forcing move to ERROR: %s", err.Error())
 			env.Sm.SetState("ERROR")
 		}
+		err = transitionErr
 	}
 
 	reply := &pb.ControlEnvironmentReply{
